@@ -116,6 +116,7 @@ Section LayerX.
   Variable fix_clear : bool.                                (* [clear_page] also clears the default-redirect target *)
   Variable fix_svary : bool.                                (* no vary header on a stream without length in either arm *)
   Variable fix_qmkey : bool.                                (* a query-dependent variant does not join an entry keyed by the path alone *)
+  Variable fix_ims : bool.                                  (* 304 only when the entry holds the variant the request selects *)
   Variable sfilter : N -> bool.                             (* status filter: true = Drop *)
   Variable parse_ims : bytes -> option Z.
   Variable sanitize_ok : request -> bool.
@@ -198,7 +199,8 @@ Section LayerX.
           let ims := if ims_on then match header (B "if-modified-since") r with
                                     | Some v => parse_ims v | None => None end
                      else None in
-          if match ims with Some t => ims_fresh t (ex_created e) | None => false end then
+          if match ims with Some t => ims_fresh t (ex_created e) | None => false end
+             && (negb fix_ims || match xv_find (vary_tuple r ov) (ex_vars e) with Some _ => true | None => false end) then
             ((c1, hs),
              {| rx_status := 304; rx_headers := []; rx_pad := 0; rx_body := []; rx_ipad := 0; rx_identity := [];
                 rx_last_modified := ims_on; rx_from_cache := true; rx_stream := None |}, [])
@@ -398,7 +400,7 @@ Definition clear_alias_fix (r : request) : option request :=
 
 Record configx := mkCfgX {
   cx_base : config; cx_xhandlers : list xhandler; cx_sfilter : N; cx_ovprime : option (bytes * bytes);
-  cx_fix_vary : bool; cx_fix_ovkey : bool; cx_fix_clear : bool; cx_fix_svary : bool; cx_fix_qmkey : bool }.
+  cx_fix_vary : bool; cx_fix_ovkey : bool; cx_fix_clear : bool; cx_fix_svary : bool; cx_fix_qmkey : bool; cx_fix_ims : bool }.
 
 Definition d_configx (x : xval) : option configx :=
   match d_config x, x with
@@ -409,7 +411,7 @@ Definition d_configx (x : xval) : option configx :=
       match xh with
       | Some xh' => Some (mkCfgX base xh' sf ovp (negb (kv_flag (B "v0_vary") l false)) (negb (kv_flag (B "v0_ovkey") l false))
                                  (negb (kv_flag (B "v0_clear") l false)) (negb (kv_flag (B "v0_svary") l false))
-                                 (negb (kv_flag (B "v0_qmkey") l false)))
+                                 (negb (kv_flag (B "v0_qmkey") l false)) (negb (kv_flag (B "v0_ims") l false)))
       | None => None
       end
   | _, _ => None
@@ -455,7 +457,7 @@ Definition x_obsx (report : list bytes) (o : obsx) : xval :=
 Definition run_cfgx (cache_on : bool) (cx : configx) (ops : list opx) : list obsx :=
   let cfg := cx_base cx in
   runX (list N) (compute_x (cf_default_ext cfg) (cf_handlers cfg) (cx_xhandlers cx)) cache_on (cf_ims cfg)
-       (cx_fix_vary cx) (cx_fix_ovkey cx) (cx_fix_clear cx) (cx_fix_svary cx) (cx_fix_qmkey cx)
+       (cx_fix_vary cx) (cx_fix_ovkey cx) (cx_fix_clear cx) (cx_fix_svary cx) (cx_fix_qmkey cx) (cx_fix_ims cx)
        (sfilter_fix (cx_sfilter cx)) parse_ims_fix sanitize_ok_fix
        (if cf_default_ext cfg then uri_redirect else (fun r => r))
        (override_x (cf_default_ext cfg) (cx_ovprime cx))
@@ -466,7 +468,7 @@ Definition run_cfgx (cache_on : bool) (cx : configx) (ops : list opx) : list obs
 Definition run_cfgx_state (cache_on : bool) (cx : configx) (ops : list opx) : (cachex * list N) * N :=
   let cfg := cx_base cx in
   runX_state (list N) (compute_x (cf_default_ext cfg) (cf_handlers cfg) (cx_xhandlers cx)) cache_on (cf_ims cfg)
-       (cx_fix_vary cx) (cx_fix_ovkey cx) (cx_fix_clear cx) (cx_fix_svary cx) (cx_fix_qmkey cx)
+       (cx_fix_vary cx) (cx_fix_ovkey cx) (cx_fix_clear cx) (cx_fix_svary cx) (cx_fix_qmkey cx) (cx_fix_ims cx)
        (sfilter_fix (cx_sfilter cx)) parse_ims_fix sanitize_ok_fix
        (if cf_default_ext cfg then uri_redirect else (fun r => r))
        (override_x (cf_default_ext cfg) (cx_ovprime cx))
